@@ -387,7 +387,27 @@ func genC05(r *sim.Rng, c *sim.Case, tier string, idx int) {
 			}
 			c.Tasks = append(c.Tasks, task)
 		}
-		if r.Chance(2, 3) {
+		if r.Chance(1, 4) {
+			// a pattern of lost renewals over the first dozen attempts, never more than three in a
+			// row (attempts come at T/2, 5T/8, 6T/8, 7T/8 of a lease: three misses are survivable,
+			// and a success starts the count afresh)
+			run := 0
+			for o := int64(1); o <= 12; o++ {
+				if run < 3 && r.Chance(9, 20) {
+					c.Faults = append(c.Faults, sim.Fault{Seam: "renew", Kind: "req_lost", Ord: o})
+					run++
+				} else {
+					run = 0
+				}
+			}
+			c.Knobs["streak_across_tenures"] = 1 // (keeps the second lock out: its renewals would shift the ordinals)
+			// three misses in a row fit into half a lease only when the storage answers at once
+			delete(c.Knobs, "cas_latency_ns")
+			if hold < 8*lease {
+				hold = 8*lease + time.Duration(r.I64n(int64(lease)))
+				c.Tasks[0].Ops[0].D = int64(hold)
+			}
+		} else if r.Chance(2, 3) {
 			ord := int64(1 + r.Intn(8))
 			if r.Chance(1, 2) {
 				ord = int64(1 + idx%8)
